@@ -51,21 +51,21 @@ End ValueInd.
 
 (** * FlattenedKeys = the positional leaf paths, when the stored names are right *)
 Lemma flat_keys_leaf_paths sep v : forall pp,
-  names_ok v = true -> pure v = true -> flat_keys sep pp v = Ok (leaf_paths sep pp v).
+  names_ok v = true -> static v = true -> flat_keys sep pp v = Ok (leaf_paths sep pp v).
 Proof.
   induction v using value_ind'; intros pp HN HP; try reflexivity.
   rename H into Hd. rename H0 into Ha.
-  cbn [names_ok pure] in HN, HP.
+  cbn [names_ok static] in HN, HP.
   apply andb_true_iff in HN as [HNd HNa].
-  apply andb_true_iff in HP as [HP HPx]. apply andb_true_iff in HP as [HPd HPa].
+  apply andb_true_iff in HP as [HPd HPa].
   (* the dictionary walk *)
   assert (Dict : forall l,
-             Forall (fun e => forall pp, names_ok (snd (snd e)) = true -> pure (snd (snd e)) = true ->
+             Forall (fun e => forall pp, names_ok (snd (snd e)) = true -> static (snd (snd e)) = true ->
                                          flat_keys sep pp (snd (snd e)) = Ok (leaf_paths sep pp (snd (snd e)))) l ->
              (fix god (l : list (string * (string * value))) : bool :=
                 match l with [] => true | (k, (nm, x)) :: r => String.eqb k nm && names_ok x && god r end) l = true ->
              (fix gd (l : list (string * (string * value))) : bool :=
-                match l with [] => true | (_, (_, x)) :: r => pure x && gd r end) l = true ->
+                match l with [] => true | (_, (_, x)) :: r => static x && gd r end) l = true ->
              (fix god (l : list (string * (string * value))) : res (list string) :=
                 match l with
                 | [] => Ok []
@@ -98,12 +98,12 @@ Proof.
     rewrite (Fx (cpath sep pp k) Nx Px). reflexivity. }
   (* the list walk *)
   assert (Arr : forall l i,
-             Forall (fun e => forall pp, names_ok (snd e) = true -> pure (snd e) = true ->
+             Forall (fun e => forall pp, names_ok (snd e) = true -> static (snd e) = true ->
                                          flat_keys sep pp (snd e) = Ok (leaf_paths sep pp (snd e))) l ->
              (fix goa (i : Z) (l : list (string * value)) : bool :=
                 match l with [] => true | (nm, x) :: r => String.eqb nm (dec i) && names_ok x && goa (i + 1) r end) i l = true ->
              (fix ga (l : list (string * value)) : bool :=
-                match l with [] => true | (_, x) :: r => pure x && ga r end) l = true ->
+                match l with [] => true | (_, x) :: r => static x && ga r end) l = true ->
              (fix go (l : list (string * value)) : res (list string) :=
                 match l with
                 | [] => Ok []
